@@ -34,10 +34,12 @@ def starts (mode : String) (is : List (Instr Rat)) : Option (List Rat) :=
   else
     let D : Nat := is.foldl (fun d i => lcmNat d i.dur.den) 1
     let ns : List Sched.Ins := is.map fun i =>
-      ⟨i.gate.name.toString, i.gate.targets.mergeSort, i.gate.controls.mergeSort, (i.dur * (D : Rat)).num⟩
+      ⟨i.gate.name.toString, i.gate.targets.mergeSort, i.gate.controls.mergeSort, (i.dur * (D : Rat)).num,
+        -- `sc`: the spin chain's native gates (RX, RZ, ISWAP, SQRTISWAP) are self-commuting families
+        true⟩
     if ns.isEmpty then some [] else
     if ns.all (fun i => i.used.isEmpty) then none else
-    let cfg : Sched.Cfg := ⟨mode == "ALAP", true, []⟩
+    let cfg : Sched.Cfg := { alap := mode == "ALAP", allowPerm := true, shufs := [] }
     some ((Sched.pulseStarts cfg ns).map fun (s : Int) => ((s : Rat) / (D : Rat)))
 
 def showLabel (c : Option (String × Int)) : String :=
